@@ -79,6 +79,8 @@ MergeSameSample(in, out) ==
     /\ Ids(out) = Ids(in)
     /\ \A y, z \in Unobs(out) : ById(in, out[y].id).pl = ById(in, out[z].id).pl => out[y].pl = out[z].pl     \* input plates are never split
     /\ OneSamplePerUPlate(in) => OneSamplePerUPlate(out)
+    \* whatever the input looked like: a plate made of two or more input plates holds one sample
+    /\ \A p \in PlatesU(out) : Cardinality({ById(in, out[y].id).pl : y \in URows(out, p)}) >= 2 => Cardinality(SamplesOf(out, URows(out, p))) = 1
 TwoSmallestSum(sc, s) ==
     LET ps == UPlatesOfSample(sc, s)
         sz(p) == Cardinality(URows(sc, p))
